@@ -4,7 +4,7 @@ CONSTANTS
   Mods <- Mods0
   AddrMode = "simple"
   MaxTx = 2
-  Fuel = 2
+  Fuel = 3
   Level = 1
   Genesis <- Genesis0
   CallMenu <- PrivCalls
